@@ -278,14 +278,50 @@ impl Sim {
 	/// Open a channel a->b (a funds) on the global chain (synchronous persistence assumed), capturing the
 	/// negotiated parameters from `open_channel` / `accept_channel`.
 	pub fn open_channel(&mut self, a: usize, b: usize, value_sat: u64, push_msat: u64) -> usize {
+		self.open_channel_with(a, b, value_sat, push_msat, None, None)
+	}
+
+	/// `pol_a` / `pol_b`: forwarding policy (fee base msat, fee ppm, cltv_expiry_delta) the opener / the acceptor
+	/// sets for this channel alone when it is created (`create_channel`'s override configuration,
+	/// `accept_inbound_channel`'s overrides); None = the node's configured default.
+	pub fn open_channel_with(&mut self, a: usize, b: usize, value_sat: u64, push_msat: u64, pol_a: Option<(u32, u32, u16)>, pol_b: Option<(u32, u32, u16)>) -> usize {
 		let ida = self.w.node_id(a);
 		let idb = self.w.node_id(b);
 		let (tx, open, accept) = {
 			let na = &self.w.nodes[a];
 			let nb = &self.w.nodes[b];
-			let temp_id = na.node.create_channel(idb, value_sat, push_msat, 42, None, None).unwrap();
+			let override_a = pol_a.map(|(base, ppm, delta)| {
+				let mut c = self.w.configs[a].clone();
+				c.channel_config.forwarding_fee_base_msat = base;
+				c.channel_config.forwarding_fee_proportional_millionths = ppm;
+				c.channel_config.cltv_expiry_delta = delta;
+				c
+			});
+			let temp_id = na.node.create_channel(idb, value_sat, push_msat, 42, None, override_a).unwrap();
 			let open = get_event_msg!(na, MessageSendEvent::SendOpenChannel, idb);
-			handle_and_accept_open_channel(nb, ida, &open);
+			match pol_b {
+				None => handle_and_accept_open_channel(nb, ida, &open),
+				Some((base, ppm, delta)) => {
+					nb.node.handle_open_channel(ida, &open);
+					let events = nb.node.get_and_clear_pending_events();
+					assert_eq!(events.len(), 1);
+					match &events[0] {
+						Event::OpenChannelRequest { temporary_channel_id, counterparty_node_id, .. } => {
+							let ov = lightning::util::config::ChannelConfigOverrides {
+								handshake_overrides: None,
+								update_overrides: Some(lightning::util::config::ChannelConfigUpdate {
+									forwarding_fee_base_msat: Some(base),
+									forwarding_fee_proportional_millionths: Some(ppm),
+									cltv_expiry_delta: Some(delta),
+									..Default::default()
+								}),
+							};
+							nb.node.accept_inbound_channel(temporary_channel_id, counterparty_node_id, 42, Some(ov)).unwrap();
+						},
+						_ => panic!("harness: unexpected event while accepting a channel"),
+					}
+				},
+			}
 			let accept = get_event_msg!(nb, MessageSendEvent::SendAcceptChannel, ida);
 			na.node.handle_accept_channel(idb, &accept);
 			let tx = sign_funding_transaction(na, nb, value_sat, temp_id);
